@@ -2,6 +2,7 @@ import pyparsing as pp
 
 from .common import _
 from .common import _c
+from .common import end
 from .common import n
 from .common import note
 from .common import note_object
@@ -24,7 +25,7 @@ project = _c + (
     + '{' + _
     - project_body('items') + _
     - '}'
-) + (n | pp.StringEnd())
+) + end
 
 
 def parse_project(s, loc, tok):
